@@ -7,6 +7,7 @@
 import GeonumModel.Lemmas.Shift
 import GeonumModel.Lemmas.AngleStep
 import GeonumModel.Lemmas.ExactAdd
+import GeonumModel.Lemmas.FloatMetric
 
 set_option linter.unusedSectionVars false
 set_option linter.unusedVariables false
@@ -153,5 +154,26 @@ theorem sum_shift_cartesian {a b : Geonum ℝ} (n m : ℕ) (ha : a.angle.Inv) (h
 end E
 
 example : (⟨(1 : Nat), (⟨(0 : Nat), 3⟩ : Angle Nat)⟩ : Geonum Nat).mag = 1 := rfl
+
+/-! ### B-tier: sums under whole turns, in rounded arithmetic -/
+section B
+variable {F : Type} [FloatSpec F]
+
+/-- (B) **the Cartesian value of a sum is unchanged by whole turns on an operand, in rounded arithmetic** (general branch on both sides):
+    adding `4n` quarter turns to the first summand moves the Cartesian components of `a + b` by at most twice the accuracy bound of
+    `C06.sum_cartesian_float` at the larger blade count — while the result angles carry different blade histories -/
+theorem sum_shift_cartesian_float {a b : Geonum F} (n : ℕ) (ha : a.angle.Inv) (hb : b.angle.Inv) (hma : a.MagDom) (hmb : b.MagDom)
+    (hcb : a.angle.blade + 4 * n + b.angle.blade ≤ 2 ^ 39)
+    (h1 : Geonum.sameAngle a b = false) (h2 : Geonum.oppositeAngle a b = false)
+    (h1' : Geonum.sameAngle (a.shift4 n) b = false) (h2' : Geonum.oppositeAngle (a.shift4 n) b = false) :
+    |val ((a.shift4 n).add b).mag * Real.cos (Angle.Tpi ((a.shift4 n).add b).angle) - val (a.add b).mag * Real.cos (Angle.Tpi (a.add b).angle)|
+      ≤ 2 * ((val a.mag + val b.mag) * (2 / 10 ^ 7 + 11 / 10 * (val (e10 : F)
+          + (40 * ((a.angle.blade + 4 * n + b.angle.blade : ℕ) : ℝ) + 170) * (1 / 2 ^ 53))) + 1 / 10 ^ 28) ∧
+    |val ((a.shift4 n).add b).mag * Real.sin (Angle.Tpi ((a.shift4 n).add b).angle) - val (a.add b).mag * Real.sin (Angle.Tpi (a.add b).angle)|
+      ≤ 2 * ((val a.mag + val b.mag) * (2 / 10 ^ 7 + 11 / 10 * (val (e10 : F)
+          + (40 * ((a.angle.blade + 4 * n + b.angle.blade : ℕ) : ℝ) + 170) * (1 / 2 ^ 53))) + 1 / 10 ^ 28) :=
+  Geonum.sum_shift_cartesian_float n ha hb hma hmb hcb h1 h2 h1' h2'
+
+end B
 
 end GeonumModel.C08
